@@ -137,46 +137,110 @@ theorem law_cmpInt : Law cmpInt where
         · simp [h, h'] at h1
     rw [hab]
 
-theorem law_cmpNulls (nf : Bool) : Law (fun a b => cmpNulls a b nf) where
+/-- NULL and "no such cell" as one thing -/
+def Cell.norm : Cell → Option Int
+  | .val v => some v
+  | _ => none
+
+/-- `compare_values_with_nulls` on normalised keys: the order ORDER BY means -/
+def cmpKey (a b : Option Int) (nf : Bool) : Ordering :=
+  match a, b with
+  | none, none => .eq
+  | none, some _ => if nf then .lt else .gt
+  | some _, none => if nf then .gt else .lt
+  | some x, some y => cmpInt x y
+
+theorem law_cmpKey (nf : Bool) : Law (fun a b => cmpKey a b nf) where
   swap a b := by
     cases a <;> cases b <;> cases nf <;> first | rfl | exact law_cmpInt.swap _ _
   ltTrans a b c h1 h2 := by
-    cases a <;> cases b <;> cases c <;> cases nf <;> simp [cmpNulls] at h1 h2 ⊢
+    cases a <;> cases b <;> cases c <;> cases nf <;> simp [cmpKey] at h1 h2 ⊢
     all_goals exact law_cmpInt.ltTrans _ _ _ h1 h2
   eqCongr a b c h1 := by
-    cases a <;> cases b <;> cases c <;> cases nf <;> simp [cmpNulls] at h1 ⊢
+    cases a <;> cases b <;> cases c <;> cases nf <;> simp [cmpKey] at h1 ⊢
     all_goals exact law_cmpInt.eqCongr _ _ _ h1
 
-theorem cmpItem_eq (it : OrderItem) :
-    cmpItem it = (if it.desc
-      then (fun a b => (cmpNulls (a.get it.col) (b.get it.col) (it.nulls.getD false)).swap)
-      else (fun a b => cmpNulls (a.get it.col) (b.get it.col) (it.nulls.getD false))) := by
+/-- the pairs on which the code's comparison is NOT the comparison of the normalised keys -/
+def Cell.clash (a b : Cell) : Bool :=
+  match a, b with
+  | .absent, .null => true
+  | .null, .absent => true
+  | _, _ => false
+
+theorem cmpNulls_eq_cmpKey (a b : Cell) (nf : Bool) (h : a.clash b = false) :
+    cmpNulls a b nf = cmpKey a.norm b.norm nf := by
+  cases a <;> cases b <;> simp [Cell.clash] at h <;> rfl
+
+/-- the comparator of one item / of the item list on normalised keys -/
+def cmpItemN (it : OrderItem) (a b : Row) : Ordering :=
+  let c := cmpKey (a.get it.col).norm (b.get it.col).norm (it.nulls.getD false)
+  if it.desc then c.swap else c
+
+def cmpRowsN : List OrderItem → Row → Row → Ordering
+  | [], _, _ => .eq
+  | it :: its, a, b =>
+    match cmpItemN it a b with
+    | .eq => cmpRowsN its a b
+    | c => c
+
+theorem cmpItemN_eq (it : OrderItem) :
+    cmpItemN it = (if it.desc
+      then (fun a b => (cmpKey (a.get it.col).norm (b.get it.col).norm (it.nulls.getD false)).swap)
+      else (fun a b => cmpKey (a.get it.col).norm (b.get it.col).norm (it.nulls.getD false))) := by
   funext a b
-  unfold cmpItem
+  unfold cmpItemN
   cases it.desc <;> rfl
 
-theorem law_cmpItem (it : OrderItem) : Law (cmpItem it) := by
-  rw [cmpItem_eq]
-  have base := (law_cmpNulls (it.nulls.getD false)).comap (fun r : Row => r.get it.col)
+theorem law_cmpItemN (it : OrderItem) : Law (cmpItemN it) := by
+  rw [cmpItemN_eq]
+  have base := (law_cmpKey (it.nulls.getD false)).comap (fun r : Row => (r.get it.col).norm)
   cases it.desc
   · exact base
   · exact base.swapped
 
-theorem cmpRows_cons (it : OrderItem) (its : List OrderItem) :
-    cmpRows (it :: its) = Law.lexCmp (cmpItem it) (cmpRows its) := by
+theorem cmpRowsN_cons (it : OrderItem) (its : List OrderItem) :
+    cmpRowsN (it :: its) = Law.lexCmp (cmpItemN it) (cmpRowsN its) := by
   funext a b
-  rw [cmpRows]
+  rw [cmpRowsN]
   unfold Law.lexCmp
-  cases cmpItem it a b <;> rfl
+  cases cmpItemN it a b <;> rfl
 
-theorem law_cmpRows (order : List OrderItem) : Law (cmpRows order) := by
+theorem law_cmpRowsN (order : List OrderItem) : Law (cmpRowsN order) := by
   induction order with
   | nil =>
-    have : cmpRows [] = (fun _ _ => Ordering.eq) := by funext a b; rfl
+    have : cmpRowsN [] = (fun _ _ => Ordering.eq) := by funext a b; rfl
     rw [this]; exact Law.const
   | cons it its ih =>
-    rw [cmpRows_cons]
-    exact Law.lex (law_cmpItem it) ih
+    rw [cmpRowsN_cons]
+    exact Law.lex (law_cmpItemN it) ih
+
+theorem no_clash_of_not_mixed (rows : List Row) (c : Nat) (h : mixedCol rows c = false) (a b : Row)
+    (ha : a ∈ rows) (hb : b ∈ rows) : (a.get c).clash (b.get c) = false := by
+  cases hc : (a.get c).clash (b.get c) with
+  | false => rfl
+  | true =>
+    exfalso
+    have hm : mixedCol rows c = true := by
+      unfold mixedCol
+      rw [Bool.and_eq_true, List.any_eq_true, List.any_eq_true]
+      cases hac : a.get c <;> cases hbc : b.get c <;> simp [hac, hbc, Cell.clash] at hc
+      · exact ⟨⟨a, ha, by simp [hac]⟩, ⟨b, hb, by simp [hbc]⟩⟩
+      · exact ⟨⟨b, hb, by simp [hbc]⟩, ⟨a, ha, by simp [hac]⟩⟩
+    rw [h] at hm; cases hm
+
+theorem cmpRows_eq_cmpRowsN (order : List OrderItem) (rows : List Row) (h : consistent order rows = true)
+    (a b : Row) (ha : a ∈ rows) (hb : b ∈ rows) : cmpRows order a b = cmpRowsN order a b := by
+  induction order with
+  | nil => rfl
+  | cons it its ih =>
+    unfold consistent at h
+    rw [List.all_cons, Bool.and_eq_true] at h
+    have hit : mixedCol rows it.col = false := by simpa using h.1
+    have e : cmpItem it a b = cmpItemN it a b := by
+      unfold cmpItem cmpItemN
+      rw [cmpNulls_eq_cmpKey _ _ _ (no_clash_of_not_mixed rows it.col hit a b ha hb)]
+    rw [cmpRows, cmpRowsN, e, ih h.2]
+    cases cmpItemN it a b <;> rfl
 
 /-! ### the stable sort -/
 
@@ -287,6 +351,27 @@ theorem sortBy_all_eq (hc : ∀ a b, cmp a b = .eq) (l : List α) : sortBy cmp l
   | nil => rfl
   | cons x xs ih => unfold sortBy; rw [ih, insertBy_all_eq cmp hc]
 
+theorem insertBy_congr (cmp' : α → α → Ordering) (x : α) (l : List α) (h : ∀ y ∈ l, cmp x y = cmp' x y) :
+    insertBy cmp x l = insertBy cmp' x l := by
+  induction l with
+  | nil => rfl
+  | cons y ys ih =>
+    unfold insertBy
+    rw [h y (List.mem_cons_self ..), ih (fun z hz => h z (List.mem_cons_of_mem _ hz))]
+
+/-- two comparators that agree on the elements of the list sort it alike -/
+theorem sortBy_congr (cmp' : α → α → Ordering) (l : List α) (h : ∀ a ∈ l, ∀ b ∈ l, cmp a b = cmp' a b) :
+    sortBy cmp l = sortBy cmp' l := by
+  induction l with
+  | nil => rfl
+  | cons x xs ih =>
+    unfold sortBy
+    rw [ih (fun a ha b hb => h a (List.mem_cons_of_mem _ ha) b (List.mem_cons_of_mem _ hb))]
+    apply insertBy_congr
+    intro y hy
+    have hy' : y ∈ xs := (sortBy_perm cmp' xs).mem_iff.mp hy
+    exact h x (List.mem_cons_self ..) y (List.mem_cons_of_mem _ hy')
+
 end SortSec
 
 /-! ### OFFSET / LIMIT -/
@@ -323,5 +408,9 @@ theorem ordered_eq_sortRows (s : Sel) (base : List Row) : ordered s base = sortR
     simp only [List.isEmpty_nil, if_true]
     exact (sortBy_all_eq (cmpRows []) (fun _ _ => rfl) base).symm
   | cons it its => simp
+
+theorem sortRows_eq_sortBy_cmpRowsN (order : List OrderItem) (rows : List Row) (h : consistent order rows = true) :
+    sortRows order rows = sortBy (cmpRowsN order) rows :=
+  sortBy_congr _ _ rows (fun a ha b hb => cmpRows_eq_cmpRowsN order rows h a b ha hb)
 
 end Neumann.Parse.Exec
